@@ -17,7 +17,7 @@ class C09(Prop):
             "the log, DSBs between packets for TLS-only captures, file+DSB combined); oracle: output bytes identical to the "
             "baseline's; one evaluation = one export; non-trivial = variant input differs from baseline input and the "
             "baseline exported data; distinct = (scenario, variant)")
-    reach = ["perm", "crlf", "deco", "upper", "dsb_only_no_s", "dsb_split", "dsb_between_packets", "both", "quic_world",
+    reach = ["perm", "crlf", "deco", "upper", "dsb_only_no_s", "dsb_split", "dsb_between_packets", "both", "no_final_newline", "dsb_no_final_newline", "both_partial_file", "dsb_plus_comment_only_dsb", "quic_world",
              "other_cwd"]
 
     def plan(self, tier):
@@ -45,6 +45,15 @@ class C09(Prop):
                      "upper": V.chance(50)}],
             ["dsb_mix", {"mode": "dsb", "dsb": [[0, 0], [0, 1]], "perm_seed": V.bits(30), "crlf": V.chance(50),
                          "upper": V.chance(30)}],
+        ]
+        variants += [
+            ["no_final_newline", {"mode": "file", "no_final_nl": True}],
+            ["dsb_no_final_newline", {"mode": "dsb", "dsb": [[0, 0]], "no_final_nl": True, "perm_seed": V.bits(30)}],
+            ["dsb_no_final_newline", {"mode": "dsb", "dsb": [[0, 0], [0, 1]], "no_final_nl": True, "crlf": V.chance(50)}],
+            ["dsb_plus_comment_only_dsb", {"mode": "dsb", "dsb": [[0, 0]],
+                                           "extra_dsb": [[0, V.choice(["# k\n", "#\n", "\n", "# exported by tap0\n", "# a\r\n\r\n"])]]}],
+            ["both_partial_file", {"mode": "both", "dsb": [[0, 0]], "file_part": V.choice([2, 3])}],
+            ["both_partial_file", {"mode": "both", "dsb": [[0, 0], [0, 1]], "file_part": 2, "perm_seed": V.bits(30)}],
         ]
         if not has_quic:
             npk = 60
